@@ -428,3 +428,11 @@ func (o *mxObs) BReqMsgs() [][]byte {
 	}
 	return o.BReq.Msgs
 }
+
+// SrvRespOut re-encodes what the reference backend sent (debugging aid).
+func (o *mxObs) SrvRespOut() *wire.ServerOut {
+	if o.SrvResp == nil {
+		return &wire.ServerOut{}
+	}
+	return o.SrvResp.Encode()
+}
